@@ -122,6 +122,9 @@ def ws_history(draw: Any) -> Dict[str, Any]:
             "end": draw(st.sampled_from(["client_close", "eof", "reset", "server_close"]))}
 
 
+EPS = 1e-6
+
+
 class Timer:
     """Reference model of the keep-alive timer, evaluated while the history runs."""
 
@@ -156,19 +159,19 @@ class Timer:
         if self.error_deadline is not None:
             if conn.server_gone:
                 return True
-            if now >= self.error_deadline:
+            if now >= self.error_deadline + EPS:
                 raise Violation("not_closed_after_error_response", f"{where}: error response at "
                                 f"t={self.error_deadline - self.T}, still open at t={now} "
                                 f"(T={self.T})", **tag)
             return False
         if self.must_close_at is not None:
             if conn.server_gone:
-                if conn.server_eof_at != self.must_close_at:
+                if abs(conn.server_eof_at - self.must_close_at) > EPS:
                     raise Violation("close_time_wrong", f"{where}: closed at "
                                     f"{conn.server_eof_at}, the closing response ended at "
                                     f"{self.must_close_at}", **tag)
                 return True
-            if now >= self.must_close_at:
+            if now >= self.must_close_at + EPS:
                 raise Violation("not_closed_after_closing_response", f"{where}: response with "
                                 f"connection: close ended at {self.must_close_at}, still open "
                                 f"at {now}", **tag)
@@ -180,14 +183,14 @@ class Timer:
                 raise Violation("closed_while_busy", f"{where}: server closed at t={at} during a "
                                 f"request / open WebSocket (T={self.T}) notes={self.notes}",
                                 **tag)
-            if at != exp:
+            if abs(at - exp) > EPS:  # (sums of float delays: 0.25 + 0.5 may read 0.7499999999999999)
                 kind = "closed_early" if at < exp else "closed_late"
                 raise Violation(kind, f"{where}: server closed at t={at}, idle since "
                                 f"{self.idle_since}, T={self.T}, terminated at "
                                 f"{self.terminated_at}: expected exactly {exp}", **tag)
             self.checked_close = True
             return True
-        if exp is not None and now > exp:
+        if exp is not None and now > exp + EPS:
             raise Violation("idle_not_closed", f"{where}: idle since {self.idle_since}, T="
                             f"{self.T}, terminated at {self.terminated_at}; still open at "
                             f"t={now} (expected close at {exp})", **tag)
